@@ -113,7 +113,9 @@ def handle (quirks : List String) (op : String) (args : List String) : String :=
     match parseFiles files, parseFaults faults with
     | some fs, some fl =>
       let q := quirksOf quirks
-      let known := q.candidateMajor
+      -- every (search path, name) probe is logged by the virtual loader; the recording wrapper
+      -- around the real FsLoader (op loadfs) sees single probes only on trees without find_first
+      let known := op == "load" || q.candidateMajor
       let rs := parseRoots roots
       answer q fs rs fl (strOf root) (fun f => 4 * f.length + 16) known
         ++ "\t" ++ answer LoadQuirks.spec fs rs fl (strOf root) (fun f => f.length + 2) true
